@@ -224,7 +224,14 @@ where
                 client_local.send(item).await.unwrap_or_else(|e| error!("[udp] failed to send inbound msg; error={}", e));
             }
             // local->client|inbound
-            Some(Ok(((content, target), sender))) = local_client.next() => {
+            Some(next) = local_client.next() => {
+                let ((content, target), sender) = match next {
+                    Ok(next) => next,
+                    Err(e) => {
+                        error!("[udp] discard malformed local datagram; error={}", e);
+                        continue;
+                    }
+                };
                 if !target.is_representable() {
                     error!("[udp] drop datagram for a target with an empty name; sender={}", sender);
                     continue;
